@@ -51,6 +51,9 @@ def _build(spec):
     part, objs = build_part(spec)
     if spec.get("beat_mode") == "musical":
         call(part.use_musical_beat)
+    elif spec.get("beat_mode") == "musical-custom":
+        # user-supplied beats per signature: a bar still lasts what its signature says
+        call(part.use_musical_beat, dict(spec.get("mbeats") or {}))
     for dg in spec.get("dangling", []):
         cls = S.Slur if dg["kind"] == "slur" else S.Tuplet
         note = objs.get(dg["note"]) if dg["note"] else None
@@ -104,7 +107,7 @@ def oracle_add_measures(spec):
     o = Outcome()
     mod = G.Model(spec)
     part, _ = _build(spec)
-    musical = spec.get("beat_mode") == "musical"
+    musical = spec.get("beat_mode") in ("musical", "musical-custom")
     first, last = mod.first, mod.last
     if part.first_point.t != first or part.last_point.t != last:
         raise AssertionError("model and part disagree on the timeline ends: %r %r" % ((first, last), (part.first_point.t, part.last_point.t)))
@@ -117,6 +120,8 @@ def oracle_add_measures(spec):
     o.cls("gap-between-existing-measures", bool(mod.existing) and bool(gaps_before))
     o.cls("signature-change-inside-existing-measure", bool(ts_inside))
     o.cls("musical-beats", musical)
+    o.cls("musical-beats-user-supplied", spec.get("beat_mode") == "musical-custom")
+    o.cls("existing-measure-numbers-" + str(spec.get("number_style")), bool(mod.existing) and bool(spec.get("number_style")))
     o.cls("musical-beats-compound-signature", musical and bool(compound))
     o.cls("late-first-signature", mod.timesigs[0][0] > first)
     o.cls("division-change", len(mod.divs) > 1)
@@ -182,7 +187,14 @@ def oracle_add_measures(spec):
     # numbering: consecutive in time order, starting at 1
     nums = [m[2] for m in after]
     if nums != list(range(1, len(nums) + 1)):
-        o.add("measure-numbers-not-consecutive", numbers=nums[:12], extents=[list(m[:2]) for m in after][:12])
+        o.add("measure-numbers-not-consecutive", numbers=nums[:12], extents=[list(m[:2]) for m in after][:12], number_style=spec.get("number_style"))
+    if spec.get("twice") and not o.discs:
+        # everything is covered now: a second call leaves the measures (objects, extents, numbers) as they are
+        o.cls("add_measures-called-twice")
+        call(S.add_measures, part)
+        again = _measures(part)
+        if again != after:
+            o.add("second-add_measures-changes-measures", before=[list(m[:3]) for m in after][:10], after=[list(m[:3]) for m in again][:10])
     return o
 
 
@@ -226,7 +238,22 @@ def _spec_sounding(spec):
     return out
 
 
-def _run_op(part, op):
+def _score_like(part, how):
+    """The part as fill_rests' `score_data: ScoreLike` (= Part | Score | PartGroup | list of parts / groups)."""
+    if how == "score":
+        return S.Score([part])
+    if how == "list":
+        return [part]
+    if how == "group":
+        g = S.PartGroup(group_name="g")
+        g.children = [part]
+        part.parent = g
+        return g
+    return part
+
+
+def _run_op(part, op, spec=None):
+    spec = spec or {}
     if op == "add_measures":
         call(S.add_measures, part)
     elif op == "tie_notes":
@@ -234,11 +261,14 @@ def _run_op(part, op):
     elif op == "find_tuplets":
         call(S.find_tuplets, part)
     elif op == "sanitize_part":
-        call(S.sanitize_part, part)
+        if spec.get("tie_tolerance"):
+            call(S.sanitize_part, part, spec["tie_tolerance"])
+        else:
+            call(S.sanitize_part, part)
     elif op == "fill_rests:mw":
-        call(S.fill_rests, part, True)
+        call(S.fill_rests, _score_like(part, spec.get("fill_arg")), True)
     elif op == "fill_rests:global":
-        call(S.fill_rests, part, False)
+        call(S.fill_rests, _score_like(part, spec.get("fill_arg")), False)
     else:
         raise AssertionError(op)
 
@@ -260,6 +290,17 @@ def oracle_pipeline(spec):
     o.cls("input-has-explicit-symbolic-duration", any(n.get("sym") and n["kind"] != "grace" for n in spec["notes"]))
     o.cls("orphan-grace-note", bool(orphan_ids))
     o.cls("dangling-slur-or-tuplet", bool(spec.get("dangling")))
+    o.cls("operations-in-free-order", bool(spec.get("free_order")))
+    o.cls("operation-repeated", len(set(ops)) < len(ops))
+    o.cls("unpitched-note", any(n["kind"] == "unpitched" for n in spec["notes"]))
+    o.cls("complete-slur", bool(spec.get("slurs")))
+    o.cls("complete-tuplet", bool(spec.get("tuplets")))
+    o.cls("note-ids-with-hyphen-suffix", bool(spec.get("id_suffix")))
+    o.cls("musical-beats-user-supplied", spec.get("beat_mode") == "musical-custom")
+    o.cls("existing-measure-numbers-" + str(spec.get("number_style")), bool(mod.existing) and bool(spec.get("number_style")))
+    if any(x.startswith("fill_rests") for x in ops):
+        o.cls("fill_rests-argument-" + str(spec.get("fill_arg", "part")))
+    o.cls("sanitize-with-tie-tolerance", "sanitize_part" in ops and bool(spec.get("tie_tolerance")))
 
     def strip(c):
         return Counter({k: v for k, v in c.items() if k[4] not in orphan_ids})
@@ -289,17 +330,23 @@ def oracle_pipeline(spec):
                 crosses2 = crosses2 or len(inner) >= 2
                 pretied_crossing = pretied_crossing or (bool(inner) and n.tie_next is not None)
             o.cls("tied-note-crosses-barline", pretied_crossing)
+            o.cls("slur-end-note-crosses-barline", any(sl.end_note is not None and sl.end_note.start is not None and sl.end_note.end is not None
+                                                      and any(sl.end_note.start.t < b < sl.end_note.end.t for b in bars) for sl in part.iter_all(S.Slur)))
         empty_measure = False
         if op.startswith("fill_rests"):
             empty_measure = any(next(part.iter_all(S.GenericNote, m[0], m[1], include_subclasses=True), None) is None for m in meas_before)
             o.cls("fill_rests-with-empty-measure", empty_measure)
         try:
-            _run_op(part, op)
+            _run_op(part, op, spec)
         except SutRaised as e:
-            o.add(e.kind, text=e.text, op=op, empty_measure=empty_measure, division_change=len(mod.divs) > 1)
+            o.add(e.kind, text=e.text, op=op, empty_measure=empty_measure, division_change=len(mod.divs) > 1,
+                  fill_arg=spec.get("fill_arg") if op.startswith("fill_rests") else None)
             return o
         if op == "tie_notes":
             tied = True
+        if op == "add_measures" and len(_measures(part)) != len(meas_before):
+            # new bar lines: "within one measure" holds again after the next tie_notes
+            tied = False
         # ---- sounding notes ------------------------------------------------
         after = strip(_sounding(part, no_voice))
         if after != before:
@@ -414,6 +461,11 @@ def _known_fill_rests_first_divs(spec, d):
     return abs(v - Fraction(det["duration"])) <= TOL * det["first_divs"] or _tuplet_guess_signature(det["sd"], Fraction(det["duration"]), det["first_divs"])
 
 
+def _known_fill_rests_scorelike(spec, d):
+    """fill_rests(score_data: ScoreLike) only unpacks Score; a list of parts or a PartGroup is treated as a Part."""
+    return d.kind == "sut-raised:AttributeError@score.py:fill_rests" and d["detail"].get("fill_arg") in ("list", "group") and "has no attribute 'measures'" in d["detail"].get("text", "")
+
+
 def _known_fractional_point(spec, d):
     """Composite rests whose pieces are not integral in the divisions in force (measurewise fill_rests only)."""
     return d.kind == "non-integer-time-point-created" and d["detail"].get("op") == "fill_rests:mw"
@@ -464,9 +516,31 @@ def oracle_estimator(spec):
         if kind not in first:
             first[kind] = kw
 
-    n_tuplet = n_empty = n_plain = 0
+    n_tuplet = n_empty = n_plain = n_composite = 0
     for dur in range(1, hi + 1):
         sd = call(M.estimate_symbolic_duration, dur, divs)
+        # the documented option return_com_durations=True: the same answer, or a tuple of values to be tied
+        # whose sum is the duration ("The returned tuple should be tied notes")
+        com = call(M.estimate_symbolic_duration, dur, divs, return_com_durations=True)
+        if isinstance(com, tuple):
+            n_composite += 1
+            if sd:
+                note("composite-answer-although-single-value-exists", dur=dur, single=dict(sd), composite=[dict(x) for x in com])
+            try:
+                tot = sum(G.sym_value(x) for x in com) * divs
+                if len(com) < 2 or abs(tot - dur) > TOL * divs:
+                    note("composite-durations-do-not-add-up", dur=dur, composite=[dict(x) for x in com], value=float(tot))
+            except (KeyError, TypeError):
+                note("symbolic-duration-malformed", dur=dur, sd=repr(com)[:120])
+        elif com != sd:
+            note("return_com_durations-changes-single-answer", dur=dur, without=repr(sd)[:80], with_option=repr(com)[:80])
+        # the argument types callers pass: numpy integers from note arrays, floats
+        if dur % 5 == 0:
+            for alt in (np.int32(dur), np.int64(dur), float(dur)):
+                if call(M.estimate_symbolic_duration, alt, divs) != sd:
+                    note("estimate-depends-on-argument-type", dur=dur, type=type(alt).__name__)
+            if call(M.estimate_symbolic_duration, dur, np.int64(divs)) != sd:
+                note("estimate-depends-on-argument-type", dur=dur, type="divs:int64")
         if not isinstance(sd, dict):
             note("estimate-returns-non-dict", dur=dur, got=repr(sd)[:80])
             continue
@@ -500,6 +574,7 @@ def oracle_estimator(spec):
     o.cls("has-tabulated-values", bool(tab))
     o.cls("has-tuplet-guesses", n_tuplet > 0)
     o.cls("has-empty-answers", n_empty > 0)
+    o.cls("has-composite-answers", n_composite > 0)
     o.nontrivial = n_tuplet > 0 and n_empty > 0 and bool(tab)
     return o
 
@@ -518,6 +593,10 @@ def strat_tie_split(tier):
             unit //= 2
         start = draw(st.one_of(st.just(0), st.integers(0, 64 * unit), st.integers(0, 8).map(lambda k: k * divs)))
         mode = draw(st.integers(0, 3))
+        if draw(st.integers(0, 7)) == 0:
+            # very long values on the quarter grid: need three tied values (41..76 quarters), or four (77, 79, 81: slow, rare)
+            dur = draw(st.one_of(st.integers(41, 76), st.integers(41, 76).map(lambda x: x), st.integers(41, 76).map(lambda x: x + 0), st.sampled_from([77, 79, 81])))
+            return {"start": draw(st.sampled_from([0, 0, 1, 4, 7])), "dur": dur, "divs": 1, "max_splits": 3}
         if mode == 0:
             n = draw(st.integers(1, big))
             dur = n * unit
@@ -551,6 +630,18 @@ def _ref_order_splits(start, end, unit):
     return sorted(xs, key=lambda x: (-level(x), x))
 
 
+def _ref_tabulated_split(start, end, divs, max_splits):
+    """Smallest number of pieces (<= max_splits + 1) of plain notated values (type x 0..3 dots) that tile
+    [start, end) with integer split points, or None. Exact arithmetic, no partitura table."""
+    vals = sorted(set(int(q * divs) for q in G.TABULATED if (q * divs).denominator == 1 and 0 < q * divs <= end - start))
+    reach = {start}
+    for k in range(1, max_splits + 2):
+        reach = set(p + v for p in reach for v in vals if p + v <= end)
+        if end in reach:
+            return k
+    return None
+
+
 def oracle_tie_split(spec):
     o = Outcome()
     start, dur, divs, ms = spec["start"], spec["dur"], spec["divs"], spec["max_splits"]
@@ -570,9 +661,16 @@ def oracle_tie_split(spec):
     q = Fraction(dur, divs)
     o.cls("single-tabulated-value", q in G.TABULATED)
     o.cls("no-solution", res is None)
+    # on a power-of-two divisions value every integer is a legal split point: when the duration can be tiled by
+    # at most max_splits + 1 plain notated values the (exhaustive) search has to come back with a solution
+    need = _ref_tabulated_split(start, end, divs, ms) if u == 1 else None
+    if need is not None:
+        o.cls("tiling-by-%d-plain-values-exists" % need)
     if res is None:
         if q in G.TABULATED:
             o.add("tie-split-misses-single-value", expected=list(G.TABULATED[q]))
+        elif need is not None:
+            o.add("tie-split-misses-existing-solution", pieces_needed=need, max_splits=ms)
         return o
     o.cls("pieces-%d" % min(len(res), 4))
     o.nontrivial = len(res) >= 2
@@ -602,20 +700,21 @@ SUBCHECKS = [
         oracle_add_measures,
         strategy=lambda tier: G.part_for_measures(tier),
         budget={"quick": 200, "thorough": 3000},
-        rule="parts with 1-3 time signatures on/off the bar grid, any divisions (incl. a division change), 0-6 existing measures anywhere (adjacent, gaps, around a signature change), notes/rests at arbitrary integer positions, notated/musical beats; measures after add_measures compared with an interval model (non-overlap, coverage of [first,last), existing untouched, bar length by signature in force unless cut by change/existing/end, numbers 1..n); non-trivial = existing measures with at least one gap to fill",
+        rule="parts with 1-3 time signatures on/off the bar grid, any divisions (incl. a division change), 0-6 existing measures anywhere (adjacent, gaps, around a signature change) numbered consecutively / not at all / arbitrarily, add_measures called once or twice, default and user-supplied musical beats, notes/rests at arbitrary integer positions, notated/musical beats; measures after add_measures compared with an interval model (non-overlap, coverage of [first,last), existing untouched, bar length by signature in force unless cut by change/existing/end, numbers 1..n); non-trivial = existing measures with at least one gap to fill",
         known={
             "bar-end-truncated": _known_truncated,
             "musical-beats-bar-length": _known_musical,
             "overlap-signature-inside-existing": _known_overlap_ts,
         },
-        floors={"gap-between-existing-measures": 0.15, "signature-change-inside-existing-measure": 0.03, "musical-beats": 0.15},
+        floors={"gap-between-existing-measures": 0.15, "signature-change-inside-existing-measure": 0.03, "musical-beats": 0.15,
+                "existing-measure-numbers-none": 0.04, "existing-measure-numbers-arbitrary": 0.03, "musical-beats-user-supplied": 0.02, "add_measures-called-twice": 0.1},
     ),
     SubCheck(
         "pipeline",
         oracle_pipeline,
         strategy=lambda tier: G.part_for_pipeline(tier),
         budget={"quick": 200, "thorough": 3000},
-        rule="same part generator plus tie chains, explicit symbolic durations, grace notes, dangling slurs/tuplets; tie_notes / find_tuplets / fill_rests(measurewise|global) / sanitize_part alone and in importer order after add_measures; after every step: note-array multiset (onset_div, duration_div, pitch, voice, id) unchanged, pitched notes within one measure once tied, tie chains contiguous and uniform, stored symbolic durations exact (Fractions); non-trivial = a note crossing >=2 bar lines, or a note left without a single notated value, or a gap between existing measures",
+        rule="same part generator plus tie chains, explicit symbolic durations, grace notes, unpitched notes, complete and dangling slurs/tuplets, note ids n1 / n1-1; tie_notes / find_tuplets / fill_rests(measurewise|global; given the Part, a Score, a list, a PartGroup) / sanitize_part(tie_tolerance 0,1,4) alone, in importer order after add_measures, and in free orders with repetitions; after every step: note-array multiset (onset_div, duration_div, pitch, voice, id) unchanged, pitched notes within one measure once tied, tie chains contiguous and uniform, stored symbolic durations exact (Fractions); non-trivial = a note crossing >=2 bar lines, or a note left without a single notated value, or a gap between existing measures",
         known={
             "fill-rests-empty-measure": _known_fill_rests_empty,
             "fill-rests-first-divisions": _known_fill_rests_first_divs,
@@ -623,8 +722,11 @@ SUBCHECKS = [
             "tie-notes-drops-existing-tie": _known_tie_dropped,
             "fill-rests-fractional-time-point": _known_fractional_point,
             "fill-rests-empty-staff-composite": _known_rest_backwards,
+            "fill-rests-rejects-list-and-part-group": _known_fill_rests_scorelike,
         },
-        floors={"op:tie_notes": 0.3, "op:fill_rests:mw": 0.1, "op:sanitize_part": 0.2, "note-crosses-two-barlines": 0.03},
+        floors={"op:tie_notes": 0.3, "op:fill_rests:mw": 0.1, "op:sanitize_part": 0.2, "note-crosses-two-barlines": 0.03,
+                "operations-in-free-order": 0.1, "operation-repeated": 0.08, "unpitched-note": 0.08, "complete-slur": 0.08, "note-ids-with-hyphen-suffix": 0.1,
+                "fill_rests-argument-score": 0.04, "sanitize-with-tie-tolerance": 0.05},
     ),
     SubCheck(
         "estimator",
@@ -638,7 +740,8 @@ SUBCHECKS = [
         oracle_tie_split,
         strategy=strat_tie_split,
         budget={"quick": 150, "thorough": 1500},
-        rule="find_tie_split(start, start+dur, divs, max_splits 0..3) and order_splits called directly: pieces contiguous from start to end, at most max_splits+1, each with a stored symbolic duration that is exact; a single tabulated value is returned unsplit; order_splits equals the documented metrical ordering of all grid points strictly inside; non-trivial = solution with >= 2 pieces",
+        rule="find_tie_split(start, start+dur, divs, max_splits 0..3) and order_splits called directly (durations needing one to four tied values): pieces contiguous from start to end, at most max_splits+1, each with a stored symbolic duration that is exact; a single tabulated value is returned unsplit; order_splits equals the documented metrical ordering of all grid points strictly inside; non-trivial = solution with >= 2 pieces",
         known={"tuplet-guess-ceil": _known_tuplet_guess},
+        floors={"pieces-3": 0.04},
     ),
 ]
